@@ -81,7 +81,9 @@ type ParseError struct {
 	Pos int
 }
 
-func (e *ParseError) Error() string { return fmt.Sprintf("pgmodel: syntax error at offset %d: %s", e.Pos, e.Msg) }
+func (e *ParseError) Error() string {
+	return fmt.Sprintf("pgmodel: syntax error at offset %d: %s", e.Pos, e.Msg)
+}
 
 // UnsupportedError flags a construct outside the modelled subset.
 type UnsupportedError struct{ Msg string }
